@@ -299,7 +299,8 @@ func IsFqdn(s string) bool {
 }
 
 // IsRRset reports whether a set of RRs is a valid RRset as defined by RFC 2181.
-// This means the RRs need to have the same type, name, and class.
+// This means the RRs need to have the same type, name, and class. Names are the same
+// when they differ in the case of their letters only.
 func IsRRset(rrset []RR) bool {
 	if len(rrset) == 0 {
 		return false
@@ -308,7 +309,7 @@ func IsRRset(rrset []RR) bool {
 	baseH := rrset[0].Header()
 	for _, rr := range rrset[1:] {
 		curH := rr.Header()
-		if curH.Rrtype != baseH.Rrtype || curH.Class != baseH.Class || curH.Name != baseH.Name {
+		if curH.Rrtype != baseH.Rrtype || curH.Class != baseH.Class || !equal(curH.Name, baseH.Name) {
 			// Mismatch between the records, so this is not a valid rrset for
 			// signing/verifying
 			return false
